@@ -845,7 +845,8 @@ class ValOp(Operation):
 
 
 HOIST_SHAPES = ([dict(launch=l, place=p, val="before_if") for l in ("none", "after", "before", "nested_before", "nested_after") for p in ("same_block", "inner_block")]
-                + [dict(launch="none", place=p, val="between") for p in ("same_block", "inner_block")])
+                + [dict(launch="none", place=p, val="between") for p in ("same_block", "inner_block")]
+                + [dict(launch="none", place="same_block", val="if_result")])
 
 
 def build_hoist(sh, sym):
@@ -855,11 +856,17 @@ def build_hoist(sh, sym):
     e_state = accfg.SetupOp([], [], "acc")
     yt, ye = scf.YieldOp(t_state.out_state), scf.YieldOp(e_state.out_state)
     cond = mk_opresult(sym.int("c"))
-    if_op = scf.IfOp(cond, [st], Region([Block([t_state, yt])]), Region([Block([e_state, ye])]))
+    if sh["val"] == "if_result":
+        # the scf.if also yields an ordinary value, which the setup writes: it only exists AFTER the scf.if
+        tv, evv = ValOp(), ValOp()
+        yt, ye = scf.YieldOp(t_state.out_state, tv.results[0]), scf.YieldOp(e_state.out_state, evv.results[0])
+        if_op = scf.IfOp(cond, [st, IndexType()], Region([Block([t_state, tv, yt])]), Region([Block([e_state, evv, ye])]))
+    else:
+        if_op = scf.IfOp(cond, [st], Region([Block([t_state, yt])]), Region([Block([e_state, ye])]))
     r = if_op.results[0]
     pre_val = ValOp()
     mid_val = ValOp()
-    used = mid_val.results[0] if sh["val"] == "between" else pre_val.results[0]
+    used = mid_val.results[0] if sh["val"] == "between" else (if_op.results[1] if sh["val"] == "if_result" else pre_val.results[0])
     op = accfg.SetupOp([used], ["f"], "acc", r)
     launch = accfg.LaunchOp([], [], r) if sh["launch"] != "none" else None
     before, after = [], []
@@ -915,6 +922,8 @@ class HoistSetupCallsIntoConditionals_contract:
         check("hoisted only when no launch observing the scf.if's state can run between the if and the setup",
               sh["launch"] == "none" or (sh["launch"] == "after" and sh["place"] == "same_block"))
         check("hoisted only when the values the setup writes are defined in front of the scf.if (available inside its branches)", sh["val"] == "before_if")
+        check("hoisted only when the setup sits in the scf.if's own block (nested in a later op it runs conditionally; inside the branches it would run always)",
+              sh["place"] == "same_block")
         ins = [e for e in ret if e[0] == "insert_op"]
         rep = [e for e in ret if e[0] == "replace_op"]
         check("one copy per branch, placed in front of that branch's yield; each yield replaced; the setup erased",
